@@ -845,7 +845,7 @@ loopers = many(
     brackets(loopers, name = 'square-bracketed loop clauses'),
     many(notpexpr("else")) + maybe(dolike("else"))])
 @pattern_macro(["lfor", "sfor", "gfor"], [loopers, FORM])
-@pattern_macro(["dfor"], [loopers, finished | unpack("mapping")])
+@pattern_macro(["dfor"], [loopers, finished | unpack("mapping", object)])
 # Here `finished` is a hack replacement for FORM + FORM:
 # https://github.com/vlasovskikh/funcparserlib/issues/75
 def compile_comprehension(compiler, expr, root, parts, final):
